@@ -80,8 +80,9 @@ type EnumOpt struct {
 }
 
 type Branch struct {
-	Disc uint8 `json:"disc"`
-	Def  *Def  `json:"def"` // struct or message, defined inline
+	Disc       uint8 `json:"disc"`
+	Def        *Def  `json:"def"` // struct or message, defined inline
+	Deprecated bool  `json:"deprecated,omitempty"`
 }
 
 type Def struct {
@@ -208,6 +209,27 @@ type Layout struct {
 	BlankRuns int
 }
 
+// flagExpr writes v as a [flags] expression in one of several forms with the same value.
+func flagExpr(v uint64, form int) string {
+	if v != 0 && v&(v-1) == 0 && form%2 == 0 {
+		k := 0
+		for x := v; x > 1; x >>= 1 {
+			k++
+		}
+		return fmt.Sprintf("1 << %d", k)
+	}
+	switch form % 4 {
+	case 1:
+		return fmt.Sprintf("0x%x", v)
+	case 2:
+		lo := v & 0xff
+		return fmt.Sprintf("(%d | 0x%x)", v&^lo, lo)
+	case 3:
+		return fmt.Sprintf("(0x%x & 0x%x) | %d", v, ^uint64(0)>>1|v, 0)
+	}
+	return fmt.Sprintf("%d", v)
+}
+
 func writeComment(b *strings.Builder, c string, l Layout, ind string) {
 	if c == "" || !l.Comments {
 		return
@@ -264,7 +286,11 @@ func printDefBody(b *strings.Builder, d *Def, l Layout, ind string) {
 			fmt.Fprintf(b, " : %s", d.Base)
 		}
 		b.WriteString(" {" + nl)
-		for _, o := range d.Opts {
+		for i, o := range d.Opts {
+			if d.Flags && d.Unsigned() {
+				fmt.Fprintf(b, "%s%s = %s;%s", in2, o.Name, flagExpr(o.UValue, i), nl)
+				continue
+			}
 			if d.Unsigned() {
 				fmt.Fprintf(b, "%s%s = %d;%s", in2, o.Name, o.UValue, nl)
 			} else {
@@ -314,6 +340,10 @@ func printDefBody(b *strings.Builder, d *Def, l Layout, ind string) {
 	case KUnion:
 		fmt.Fprintf(b, "union %s {\n", d.Name)
 		for _, br := range d.Branches {
+			writeComment(b, br.Def.Comment, l, in2)
+			if br.Deprecated {
+				fmt.Fprintf(b, "%s[deprecated(\"old branch\")]\n", in2)
+			}
 			fmt.Fprintf(b, "%s%d -> ", in2, br.Disc)
 			printDefBody(b, br.Def, l, in2)
 			b.WriteString("\n")
